@@ -1095,6 +1095,95 @@ class _ModuleScope:
 
 
 # --------------------------------------------------------------------------------------
+def _const_pairs(expr, mod):
+    """the (key node, value node) pairs a comprehension / generator over module-level literal tables produces, evaluated on the
+    syntax (literal tuples and lists, names bound once at module level, zip, itertools.repeat); None if anything else occurs"""
+    class Repeat:
+        def __init__(self, node):
+            self.node = node
+
+    def resolve(e, env):
+        if isinstance(e, ast.Name) and e.id in env:
+            return env[e.id]
+        return e
+
+    def items(e, env, depth=0):
+        if depth > 6:
+            return None
+        e = resolve(e, env)
+        if isinstance(e, (ast.Tuple, ast.List)):
+            return [resolve(x, env) for x in e.elts]
+        if isinstance(e, ast.Name):
+            vals = mod.globals.get(e.id, [])
+            if len(vals) == 1 and vals[0] is not None:
+                return items(vals[0], env, depth + 1)
+            return None
+        if isinstance(e, ast.Call) and dotted(e.func) in ("repeat", "itertools.repeat") and len(e.args) == 1:
+            return Repeat(resolve(e.args[0], env))
+        if isinstance(e, ast.Call) and dotted(e.func) == "zip" and e.args and not e.keywords:
+            cols = [items(a, env, depth + 1) for a in e.args]
+            if any(c is None for c in cols):
+                return None
+            finite = [len(c) for c in cols if not isinstance(c, Repeat)]
+            if not finite:
+                return None
+            n = min(finite)
+            return [ast.Tuple(elts=[(c.node if isinstance(c, Repeat) else c[i]) for c in cols], ctx=ast.Load()) for i in range(n)]
+        if isinstance(e, (ast.GeneratorExp, ast.ListComp)):
+            return comp(e, env, depth + 1)
+        if isinstance(e, ast.Call) and dotted(e.func) in ("list", "tuple") and len(e.args) == 1:
+            return items(e.args[0], env, depth + 1)
+        return None
+
+    def bind(target, value, env):
+        if isinstance(target, ast.Name):
+            env = dict(env)
+            env[target.id] = value
+            return env
+        if isinstance(target, (ast.Tuple, ast.List)) and isinstance(value, (ast.Tuple, ast.List)) and len(target.elts) == len(value.elts):
+            for t, v in zip(target.elts, value.elts):
+                env = bind(t, v, env)
+                if env is None:
+                    return None
+            return env
+        return None
+
+    def comp(c, env, depth):
+        out = []
+
+        def rec(gi, env):
+            if gi == len(c.generators):
+                e = c.elt
+                if isinstance(e, ast.Tuple):
+                    out.append(ast.Tuple(elts=[resolve(x, env) for x in e.elts], ctx=ast.Load()))
+                else:
+                    out.append(resolve(e, env))
+                return True
+            g = c.generators[gi]
+            if g.ifs:
+                return False
+            its = items(g.iter, env, depth)
+            if its is None or isinstance(its, Repeat):
+                return False
+            for it in its:
+                e2 = bind(g.target, it, env)
+                if e2 is None or not rec(gi + 1, e2):
+                    return False
+            return True
+
+        return out if rec(0, env) else None
+
+    res = items(expr, {})
+    if res is None or isinstance(res, Repeat):
+        return None
+    pairs = []
+    for r in res:
+        if not (isinstance(r, ast.Tuple) and len(r.elts) == 2):
+            return None
+        pairs.append((r.elts[0], r.elts[1]))
+    return pairs
+
+
 def extract_registry(prog):
     """Statically extract TRANSFORMS / ENCODINGS: name -> ('class'|'func', qual)."""
     tm = prog.mod("transforms")
@@ -1124,6 +1213,10 @@ def extract_registry(prog):
             if isinstance(arg, (ast.Tuple, ast.List)) and all(isinstance(e, ast.Tuple) and len(e.elts) == 2 for e in arg.elts):
                 # a sequence of (name, callable) pairs: later pairs win, as in dict.update
                 arg = ast.Dict(keys=[e.elts[0] for e in arg.elts], values=[e.elts[1] for e in arg.elts])
+            if not isinstance(arg, ast.Dict):
+                pairs = _const_pairs(arg, tm)
+                if pairs is not None:
+                    arg = ast.Dict(keys=[k for k, _ in pairs], values=[v for _, v in pairs])
             if not isinstance(arg, ast.Dict):
                 raise AnalysisError("TRANSFORMS.update argument is not a dict display")
             for k, v in zip(arg.keys, arg.values):
